@@ -19,35 +19,7 @@ import time
 import traceback
 
 from vf import core
-from vf.core import Ctx, HarnessError, Violation
-
-
-class CaseFailed(Exception):
-    """Raised inside a Hypothesis test body when a case has a not-yet-known violation."""
-
-
-class CaseTimeout(BaseException):
-    """Raised by the per-case watchdog (BaseException: not swallowed by `except Exception`)."""
-
-
-@contextlib.contextmanager
-def watchdog(seconds):
-    """Wall-clock guard around one case.  A trip is 'inconclusive' for every property except
-    C15 (which runs its own CPU-time watchdog and turns a confirmed trip into a verdict)."""
-    if not seconds:
-        yield
-        return
-
-    def handler(signum, frame):
-        raise CaseTimeout()
-
-    old = signal.signal(signal.SIGALRM, handler)
-    signal.setitimer(signal.ITIMER_REAL, seconds)
-    try:
-        yield
-    finally:
-        signal.setitimer(signal.ITIMER_REAL, 0)
-        signal.signal(signal.SIGALRM, old)
+from vf.core import CaseFailed, CaseTimeout, Ctx, HarnessError, Violation, watchdog
 
 
 class Session:
